@@ -11,6 +11,7 @@ import (
 	"strings"
 
 	"github.com/labstack/echo/v4"
+	glog "github.com/labstack/gommon/log"
 )
 
 func init() {
@@ -88,6 +89,14 @@ func genC06(rng *rand.Rand, n int, emit func(Case), dist map[string]int) {
 			s0 = 200
 		}
 		c06Prev = c
+		if rng.Intn(5) == 0 {
+			// the application installs another logger while contexts (and their Responses) already exist
+			e.Logger = glog.New("echo")
+			dist["logger_replaced_between_programs"]++
+		}
+		logbuf := new(bytes.Buffer)
+		e.Logger.SetOutput(logbuf)
+		e.Logger.SetLevel(glog.WARN)
 		resp := c.Response()
 		nops := 1 + rng.Intn(12)
 		var ops, states []Sx
@@ -131,7 +140,11 @@ func genC06(rng *rand.Rand, n int, emit func(Case), dist map[string]int) {
 			}
 			switch kind {
 			case 0:
+				warned := strings.Count(logbuf.String(), "already committed")
 				resp.WriteHeader(code)
+				if wasCommitted && strings.Count(logbuf.String(), "already committed") != warned+1 {
+					ok, why = false, fmt.Sprintf("op %d: WriteHeader(%d) on a committed response was ignored without a warning in the instance's CURRENT logger", i, code)
+				}
 				ops = append(ops, L(I(0), I(code)))
 				human = append(human, fmt.Sprintf("WriteHeader(%d)", code))
 				if wasCommitted {
